@@ -55,3 +55,63 @@ package sender
 
 // A rule never carries the wildcard flag: addRule refuses such patterns.
 //@ fieldinv sender.filterRule.flag: mod(div(v, 8), 2) == 0
+
+// ---------------------------------------------------------------- effects
+// C06: a sender reads the file system only through a FileSource (srcread)
+//      that was opened on the module directory / module fs.FS, or through
+//      os.OpenRoot on the local directory it was given.
+// C07: a sender never writes to the file system (no allows for fswrite /
+//      pathwrite / ambient at all).
+// C10: with --dry-run no file data is transmitted (effect "filedata").
+
+//@ spec func isSourceFS(h: int): bool
+//@ spec func fileSrc(f: int): int
+
+//@ extern (sender.FileSource).Open params s, name
+//@   effect srcread(data(s))
+//@   ensures err != nil ==> result == nil
+//@ extern (sender.FileSource).Readlink params s, name
+//@   effect srcread(data(s))
+//@ extern (sender.FileSource).FS params s
+//@   ensures isSourceFS(fsOf(data(result)))
+//@ extern (sender.FileSource).Close params s
+//@ extern (sender.File).Read params f, p
+//@   effect srcread(fileSrc(data(f)))
+//@   modifies contents(p)
+//@   ensures 0 <= n && n <= len(p)
+//@ extern (sender.File).Seek params f, offset, whence
+//@ extern (sender.File).Stat params f
+//@   effect srcread(fileSrc(data(f)))
+//@ extern (sender.File).Close params f
+
+//@ default (*sender.Transfer).
+//@   allows[C06] srcread(h)
+//@   allows[C06] fsread(h) if isSourceFS(h)
+//@ default (*sender.scopedWalker).
+//@   allows[C06] srcread(h)
+//@   allows[C06] fsread(h) if isSourceFS(h)
+//@   allows[C06] pathread(p) if p == s.localDir
+
+//@ func (*sender.Transfer).SendFileList
+//@   allows[C06] pathread(p) if localDir == "/" || p == localDir
+//@ func (*sender.Transfer).Do
+//@   allows[C06] pathread(p) if modPath == "/" || p == modPath
+//@   allows[C10] filedata if st.Opts.dry_run == 0
+//@ func (*sender.Transfer).SendFiles
+//@   allows[C10] filedata if st.Opts.dry_run == 0
+//@ func (*sender.Transfer).sendFile
+//@   allows[C10] filedata
+//@ func (*sender.Transfer).hashSearch
+//@   allows[C10] filedata
+
+// the two FileSource implementations stay inside what they wrap
+//@ func (*sender.osRootSource).Open
+//@   allows[C06] fsread(h) if h == s.root
+//@ func (*sender.osRootSource).Readlink
+//@   allows[C06] fsread(h) if h == s.root
+//@ func (*sender.osRootSource).FS
+//@   pure
+//@ func (*sender.fsSource).Open
+//@   allows[C06] fsread(h) if h == fsOf(data(s.fsys))
+//@ func (*sender.fsSource).Readlink
+//@   allows[C06] fsread(h) if h == fsOf(data(s.fsys))
